@@ -19,7 +19,7 @@ REPO = os.environ.get("YARL_REPO", "/repo")
 sys.path.insert(0, os.path.join(VERIF, ".deps"))
 sys.path.insert(0, VERIF)
 
-from sx import core, harness, instrument, models  # noqa: E402
+from sx import core, harness, instrument, models, models_ext  # noqa: E402
 from sx.harness import Ctx, enc_val, dec_val  # noqa: E402
 
 EXIT_OK, EXIT_VIOLATION, EXIT_INCONCLUSIVE = 0, 1, 2
@@ -173,7 +173,7 @@ def main(argv=None):
 
     budget = a.budget or mod.BUDGET[a.tier]
     runner = harness.Runner(prop_id, fams, pkgs, known, a.tier, seed, budget, workers=a.workers,
-                            slice_paths=getattr(mod, "SLICE", 120), no_concordance=a.no_concordance)
+                            slice_paths=getattr(mod, "SLICE", 400), no_concordance=a.no_concordance)
     out = runner.run()
 
     problems = list(out["errors"])
